@@ -1,23 +1,36 @@
 #!/usr/bin/env python3
 """
-Kernel extraction (DESIGN.md §2.4): reads seven arithmetic kernels from /repo's *current* source with
-`ast` and regenerates lean/VK/Model/Generated.lean. VK/Props/Kernels.lean proves each generated
-definition equal to the corresponding definition of the hand-written model, so a change of one of
-these expressions in the source breaks a proof obligation at `lake build` (before any sampling).
+Kernel extraction (DESIGN.md §2.4, §9.2): a small translator that reads arithmetic and decision kernels from
+/repo's *current* source with `ast` and regenerates lean/VK/Model/Generated/<Group>.lean on every check.
+VK/Props/Kernels<Group>.lean proves each generated definition equal to the corresponding definition of the
+hand-written model, so a change of one of these expressions or comparisons in the source breaks a proof obligation
+at `lake build`, before any sampling. Groups are separate files and separate proof modules so that a changed kernel
+only reaches the properties whose theorems depend on it.
 
-Kernels:  STV.get_threshold (droop, hare) · fractional_transfer's transfer_value ·
-          BoostedRandomDictator's branch threshold · the two acceptance probabilities of the slate-BT
-          MCMC chain · the acceptance probability of the name-BT MCMC chain.
-Accepted expression subset: integer constants, the names listed in ENV, + - * /, len(x), unary minus,
-min(a, b), `a if x <cmp> y else b`, and pref_interval[...] lookups by the swap index they mention.
-If a kernel cannot be located or translated the previous Generated.lean is kept and the reason is
-printed (exit code 3): the correspondence check then carries that kernel alone.
+Groups and kernels
+  STV       get_threshold (droop, hare) · fractional_transfer's transfer_value · the two quota tests
+            (`>= self.threshold` in _simultaneous_elect_step and in _run_step) · random_transfer's sample size
+  Dictator  BoostedRandomDictator's branch threshold `u <= 1/(c-1)` and its single-candidate test
+  MCMC      the two acceptance probabilities of the slate-BT chain, the one of the name-BT chain
+  Rating    GeneralRating._validate_profile: per-candidate limit, negative score and budget tests
+  Vector    validate_score_vector: negative entry and increasing entry tests
+  Veto      PluralityVeto._run_step: the strike test, the zero-tally test of round 1, the decrement, the final-round test
+  Fill      ballot_fill's share of one completion
+  Expand    expand_tied_ballot's share of one ordering of a tied group
+
+Accepted expression subset: integer constants, names / attributes listed in the kernel's environment, + - * /,
+len(x), int(x) (floor), Fraction(n), math.factorial(len(x)), unary minus, min(a, b), comparisons
+(< <= > >= == !=), `a if x <cmp> y else b`, and subscripts through a kernel-specific map.
+If a group cannot be located or translated its previous file is kept and the reason is printed (exit code 3): the
+correspondence check then carries those kernels alone.
 """
 import ast, os, sys
 
 REPO = os.environ.get("VERIF_REPO", "/repo")
 HERE = os.path.dirname(os.path.dirname(os.path.abspath(__file__)))
-OUT = os.path.join(HERE, "lean", "VK", "Model", "Generated.lean")
+OUTDIR = os.path.join(HERE, "lean", "VK", "Model", "Generated")
+
+CMP = {ast.Gt: ">", ast.Lt: "<", ast.GtE: "≥", ast.LtE: "≤", ast.Eq: "=", ast.NotEq: "≠"}
 
 
 class Untranslatable(Exception):
@@ -25,23 +38,36 @@ class Untranslatable(Exception):
 
 
 def tr(node, env):
+    """Python expression -> Lean term over Rat"""
     if isinstance(node, ast.Constant) and isinstance(node.value, int) and not isinstance(node.value, bool):
         return f"({node.value} : Rat)"
     if isinstance(node, ast.Name) and node.id in env:
         return env[node.id]
-    if isinstance(node, ast.Attribute) and isinstance(node.value, ast.Name) and node.value.id == "self" and ("self." + node.attr) in env:
-        return env["self." + node.attr]
-    if isinstance(node, ast.Call) and isinstance(node.func, ast.Name) and node.func.id == "len" and len(node.args) == 1 \
-            and isinstance(node.args[0], ast.Name) and ("len:" + node.args[0].id) in env:
-        return env["len:" + node.args[0].id]
-    if isinstance(node, ast.Call) and isinstance(node.func, ast.Name) and node.func.id == "min" and len(node.args) == 2:
-        return f"(rmin2 {tr(node.args[0], env)} {tr(node.args[1], env)})"
+    if isinstance(node, ast.Attribute) and isinstance(node.value, ast.Name) and (node.value.id + "." + node.attr) in env:
+        return env[node.value.id + "." + node.attr]
+    if isinstance(node, ast.Call):
+        fn = node.func
+        if isinstance(fn, ast.Name) and fn.id == "len" and len(node.args) == 1 \
+                and isinstance(node.args[0], ast.Name) and ("len:" + node.args[0].id) in env:
+            return env["len:" + node.args[0].id]
+        if isinstance(fn, ast.Name) and fn.id == "min" and len(node.args) == 2:
+            return f"(rmin2 {tr(node.args[0], env)} {tr(node.args[1], env)})"
+        if isinstance(fn, ast.Name) and fn.id == "int" and len(node.args) == 1:
+            return f"((({tr(node.args[0], env)}).floor : Int) : Rat)"
+        if isinstance(fn, ast.Name) and fn.id == "Fraction" and len(node.args) == 1 \
+                and isinstance(node.args[0], ast.Constant) and isinstance(node.args[0].value, int):
+            return f"({node.args[0].value} : Rat)"
+        if isinstance(fn, ast.Attribute) and isinstance(fn.value, ast.Name) and fn.value.id == "math" \
+                and fn.attr == "factorial" and len(node.args) == 1 and isinstance(node.args[0], ast.Call) \
+                and isinstance(node.args[0].func, ast.Name) and node.args[0].func.id == "len" \
+                and isinstance(node.args[0].args[0], ast.Name) and ("len:" + node.args[0].args[0].id) in env:
+            return f"((gfact {env['lenNat:' + node.args[0].args[0].id]} : Nat) : Rat)"
+        if "call" in env:
+            r = env["call"](node)
+            if r is not None:
+                return r
     if isinstance(node, ast.IfExp) and isinstance(node.test, ast.Compare) and len(node.test.ops) == 1:
-        cmp = {ast.Gt: ">", ast.Lt: "<", ast.GtE: "≥", ast.LtE: "≤", ast.Eq: "=", ast.NotEq: "≠"}
-        for k, v in cmp.items():
-            if isinstance(node.test.ops[0], k):
-                return (f"(if {tr(node.test.left, env)} {v} {tr(node.test.comparators[0], env)} "
-                        f"then {tr(node.body, env)} else {tr(node.orelse, env)})")
+        return f"(if {trc(node.test, env, prop=True)} then {tr(node.body, env)} else {tr(node.orelse, env)})"
     if isinstance(node, ast.Subscript) and "subscript" in env:
         key = env["subscript"](node)
         if key is not None:
@@ -54,6 +80,17 @@ def tr(node, env):
             if isinstance(node.op, k):
                 return f"({tr(node.left, env)} {v} {tr(node.right, env)})"
     raise Untranslatable(ast.dump(node)[:120])
+
+
+def trc(node, env, prop=False):
+    """comparison -> Lean Bool (`decide (...)`) or Prop"""
+    if not (isinstance(node, ast.Compare) and len(node.ops) == 1 and len(node.comparators) == 1):
+        raise Untranslatable("comparison expected: " + ast.dump(node)[:100])
+    for k, v in CMP.items():
+        if isinstance(node.ops[0], k):
+            body = f"{tr(node.left, env)} {v} {tr(node.comparators[0], env)}"
+            return body if prop else f"decide ({body})"
+    raise Untranslatable("comparison operator: " + ast.dump(node.ops[0]))
 
 
 def find_func(tree, cls, name):
@@ -69,8 +106,31 @@ def find_func(tree, cls, name):
     raise Untranslatable(f"function {cls}.{name} not found")
 
 
+def compares(func, pred):
+    out = [n for n in ast.walk(func) if isinstance(n, ast.Compare) and len(n.ops) == 1 and pred(n)]
+    out.sort(key=lambda n: (n.lineno, n.col_offset))
+    return out
+
+
+def is_attr(node, obj, attr):
+    return isinstance(node, ast.Attribute) and isinstance(node.value, ast.Name) and node.value.id == obj and node.attr == attr
+
+
+def is_const(node, v):
+    return isinstance(node, ast.Constant) and node.value == v and not isinstance(node.value, bool)
+
+
+def one(lst, what):
+    if len(lst) != 1:
+        raise Untranslatable(f"expected exactly one {what}, found {len(lst)}")
+    return lst[0]
+
+
+def parse(rel):
+    return ast.parse(open(os.path.join(REPO, "src", "votekit", rel)).read())
+
+
 def quota_returns(func):
-    """the `return int(<expr>)` under `if self.quota == "<name>"`"""
     out = {}
     for n in ast.walk(func):
         if isinstance(n, ast.If) and isinstance(n.test, ast.Compare) and len(n.test.comparators) == 1 \
@@ -83,102 +143,232 @@ def quota_returns(func):
     return out
 
 
-def main():
-    src = os.path.join(REPO, "src", "votekit")
-    try:
-        stv = ast.parse(open(os.path.join(src, "elections/election_types/ranking/stv.py")).read())
-        rets = quota_returns(find_func(stv, "STV", "get_threshold"))
-        env_q = {"total_ballot_wt": "N", "self.m": "(m : Rat)"}
-        droop = tr(rets["droop"], env_q)
-        hare = tr(rets["hare"], env_q)
-        trf = ast.parse(open(os.path.join(src, "elections/transfers.py")).read())
-        ft = find_func(trf, None, "fractional_transfer")
-        tv = None
-        for n in ast.walk(ft):
-            if isinstance(n, ast.Assign) and len(n.targets) == 1 and isinstance(n.targets[0], ast.Name) and n.targets[0].id == "transfer_value":
-                tv = n.value
-        if tv is None:
-            raise Untranslatable("transfer_value assignment not found")
-        tvs = tr(tv, {"fpv": "fpv", "threshold": "(threshold : Rat)"})
-        brd = ast.parse(open(os.path.join(src, "elections/election_types/ranking/boosted_random_dictator.py")).read())
-        br = None
-        for n in ast.walk(brd):
-            if isinstance(n, ast.Compare) and isinstance(n.left, ast.Name) and n.left.id == "u" and len(n.ops) == 1 \
-                    and isinstance(n.ops[0], (ast.LtE, ast.Lt)):
-                br = n.comparators[0]
-        if br is None:
-            raise Untranslatable("boosted branch comparison `u <= ...` not found")
-        brs = tr(br, {"len:remaining_cands": "(n : Rat)"})
-        bg = ast.parse(open(os.path.join(src, "ballot_generator.py")).read())
-        # slate_BradleyTerry._sample_ballot_types_MCMC: the two acceptance probabilities, in source order
-        sm = find_func(bg, "slate_BradleyTerry", "_sample_ballot_types_MCMC")
-        acc = [n.value for n in ast.walk(sm) if isinstance(n, ast.Assign) and len(n.targets) == 1
-               and isinstance(n.targets[0], ast.Name) and n.targets[0].id == "acceptance_prob"
-               and not isinstance(n.value, ast.Constant)]
-        acc.sort(key=lambda v: v.lineno)
-        if len(acc) != 2:
-            raise Untranslatable(f"expected two non-constant acceptance_prob assignments in slate MCMC, found {len(acc)}")
-        sdown = tr(acc[0], {"cohesion": "c"})
-        sup = tr(acc[1], {"cohesion": "c"})
-        # name_BradleyTerry._BT_mcmc: min(1, x[second] / x[first])
-        bm = find_func(bg, "name_BradleyTerry", "_BT_mcmc")
-        bacc = [n.value for n in ast.walk(bm) if isinstance(n, ast.Assign) and len(n.targets) == 1
-                and isinstance(n.targets[0], ast.Name) and n.targets[0].id == "acceptance_prob"]
-        if len(bacc) != 1:
-            raise Untranslatable("acceptance_prob assignment in _BT_mcmc not found")
+def src(node):
+    return " ".join(ast.unparse(node).split())
 
-        def sub(node):
-            if isinstance(node.value, ast.Name) and node.value.id == "pref_interval":
-                names = {n.id for n in ast.walk(node.slice) if isinstance(n, ast.Name)}
-                if "j1" in names and "j2" not in names:
-                    return "x1"
-                if "j2" in names and "j1" not in names:
-                    return "x2"
-            return None
-        bts = tr(bacc[0], {"subscript": sub})
-    except (Untranslatable, KeyError, OSError, SyntaxError) as e:
-        print(f"kernel extraction fell back to the committed Generated.lean: {type(e).__name__}: {e}")
-        return 3
-    text = f"""/-
+
+# ----------------------------------------------------------------------------------------------- groups
+
+def g_stv():
+    stv = parse("elections/election_types/ranking/stv.py")
+    rets = quota_returns(find_func(stv, "STV", "get_threshold"))
+    env_q = {"total_ballot_wt": "N", "self.m": "(m : Rat)"}
+    droop, hare = tr(rets["droop"], env_q), tr(rets["hare"], env_q)
+    trf = parse("elections/transfers.py")
+    ft = find_func(trf, None, "fractional_transfer")
+    tv = one([n.value for n in ast.walk(ft) if isinstance(n, ast.Assign) and len(n.targets) == 1
+              and isinstance(n.targets[0], ast.Name) and n.targets[0].id == "transfer_value"], "transfer_value assignment")
+    tvs = tr(tv, {"fpv": "fpv", "threshold": "(threshold : Rat)"})
+    env_t = {"self.threshold": "(threshold : Rat)", "score": "score", "subscript": lambda n: "score"}
+    q1 = one(compares(find_func(stv, "STV", "_simultaneous_elect_step"), lambda n: is_attr(n.comparators[0], "self", "threshold")),
+             "comparison with self.threshold in _simultaneous_elect_step")
+    q2 = one(compares(find_func(stv, "STV", "_run_step"), lambda n: is_attr(n.comparators[0], "self", "threshold")),
+             "comparison with self.threshold in _run_step")
+    rt = find_func(trf, None, "random_transfer")
+    smp = one([n for n in ast.walk(rt) if isinstance(n, ast.Call) and isinstance(n.func, ast.Attribute)
+               and n.func.attr == "sample" and len(n.args) == 2], "random.sample(population, k) call")
+    size = tr(smp.args[1], {"fpv": "fpv", "threshold": "(threshold : Rat)"})
+    return f"""/-- `STV.get_threshold`, quota == "droop": `int({src(rets['droop'])})` -/
+def thresholdDroop (m : Nat) (N : Rat) : Int := ({droop}).floor
+
+/-- `STV.get_threshold`, quota == "hare": `int({src(rets['hare'])})` -/
+def thresholdHare (m : Nat) (N : Rat) : Int := ({hare}).floor
+
+/-- `fractional_transfer`: `transfer_value = {src(tv)}` -/
+def transferValue (fpv : Rat) (threshold : Int) : Rat := {tvs}
+
+/-- `STV._simultaneous_elect_step`: a candidate of the tally order is elected while `{src(q1)}` -/
+def quotaReachedSimul (score : Rat) (threshold : Int) : Bool := {trc(q1, env_t)}
+
+/-- `STV._run_step`: somebody is elected this round when some `{src(q2)}` -/
+def quotaReachedStep (score : Rat) (threshold : Int) : Bool := {trc(q2, env_t)}
+
+/-- `random_transfer`: `random.sample(transferable, {src(smp.args[1])})` -/
+def randomSampleSize (fpv : Rat) (threshold : Int) : Rat := {size}
+"""
+
+
+def g_dictator():
+    brd = parse("elections/election_types/ranking/boosted_random_dictator.py")
+    f = find_func(brd, "BoostedRandomDictator", "_run_step")
+    br = one(compares(f, lambda n: isinstance(n.left, ast.Name) and n.left.id == "u"), "comparison `u <op> ...`")
+    env = {"len:remaining_cands": "(n : Rat)", "u": "u"}
+    single = one(compares(f, lambda n: isinstance(n.left, ast.Call) and isinstance(n.left.func, ast.Name)
+                          and n.left.func.id == "len" and isinstance(n.left.args[0], ast.Name)
+                          and n.left.args[0].id == "remaining_cands" and is_const(n.comparators[0], 1)),
+                 "comparison `len(remaining_cands) <op> 1`")
+    return f"""/-- `BoostedRandomDictator._run_step`: the squares branch is taken when `{src(br)}` -/
+def boostedBranch (n : Nat) : Rat := {tr(br.comparators[0], env)}
+
+/-- the comparison itself: `{src(br)}` -/
+def boostedTakesSquares (u : Rat) (n : Nat) : Bool := {trc(br, env)}
+
+/-- a single remaining candidate wins outright: `{src(single)}` -/
+def boostedSingle (n : Nat) : Bool := {trc(single, env)}
+"""
+
+
+def g_mcmc():
+    bg = parse("ballot_generator.py")
+    sm = find_func(bg, "slate_BradleyTerry", "_sample_ballot_types_MCMC")
+    acc = [n.value for n in ast.walk(sm) if isinstance(n, ast.Assign) and len(n.targets) == 1
+           and isinstance(n.targets[0], ast.Name) and n.targets[0].id == "acceptance_prob"
+           and not isinstance(n.value, ast.Constant)]
+    acc.sort(key=lambda v: v.lineno)
+    if len(acc) != 2:
+        raise Untranslatable(f"expected two non-constant acceptance_prob assignments in slate MCMC, found {len(acc)}")
+    bm = find_func(bg, "name_BradleyTerry", "_BT_mcmc")
+    bacc = one([n.value for n in ast.walk(bm) if isinstance(n, ast.Assign) and len(n.targets) == 1
+                and isinstance(n.targets[0], ast.Name) and n.targets[0].id == "acceptance_prob"], "acceptance_prob in _BT_mcmc")
+
+    def sub(node):
+        if isinstance(node.value, ast.Name) and node.value.id == "pref_interval":
+            names = {n.id for n in ast.walk(node.slice) if isinstance(n, ast.Name)}
+            if "j1" in names and "j2" not in names:
+                return "x1"
+            if "j2" in names and "j1" not in names:
+                return "x2"
+        return None
+    return f"""/-- Python's `min` on two numbers -/
+def rmin2 (a b : Rat) : Rat := if a ≤ b then a else b
+
+/-- `slate_BradleyTerry._sample_ballot_types_MCMC`, swap that moves the bloc's own slate down:
+`{src(acc[0])}` -/
+def slateAcceptDown (c : Rat) : Rat := {tr(acc[0], {"cohesion": "c"})}
+
+/-- the swap that moves the bloc's own slate up: `{src(acc[1])}` -/
+def slateAcceptUp (c : Rat) : Rat := {tr(acc[1], {"cohesion": "c"})}
+
+/-- `name_BradleyTerry._BT_mcmc`: `{src(bacc)}` with x1 = support of the
+candidate at j1 (currently above), x2 = support of the candidate at j2 -/
+def btAccept (x1 x2 : Rat) : Rat := {tr(bacc, {"subscript": sub})}
+"""
+
+
+def g_rating():
+    f = find_func(parse("elections/election_types/scores/rating.py"), "GeneralRating", "_validate_profile")
+    over = one(compares(f, lambda n: is_attr(n.comparators[0], "self", "L")), "comparison with self.L")
+    neg = one(compares(f, lambda n: isinstance(n.left, ast.Name) and n.left.id == "score" and is_const(n.comparators[0], 0)),
+              "comparison `score <op> 0`")
+    bud = one(compares(f, lambda n: is_attr(n.comparators[0], "self", "k")), "comparison with self.k")
+    env = {"score": "score", "self.L": "L", "self.k": "k",
+           "call": lambda n: "total" if isinstance(n.func, ast.Name) and n.func.id == "sum" else None}
+    return f"""/-- `GeneralRating._validate_profile`: a ballot is refused when some `{src(over)}` -/
+def overLimit (score L : Rat) : Bool := {trc(over, env)}
+
+/-- … or some `{src(neg)}` -/
+def negScore (score : Rat) : Bool := {trc(neg, env)}
+
+/-- … or, with a budget, `{src(bud)}` -/
+def overBudget (total k : Rat) : Bool := {trc(bud, env)}
+"""
+
+
+def g_vector():
+    f = find_func(parse("utils.py"), None, "validate_score_vector")
+    neg = one(compares(f, lambda n: isinstance(n.left, ast.Name) and n.left.id == "score" and is_const(n.comparators[0], 0)),
+              "comparison `score <op> 0`")
+    inc = one(compares(f, lambda n: isinstance(n.left, ast.Name) and n.left.id == "score" and isinstance(n.comparators[0], ast.Subscript)),
+              "comparison `score <op> score_vector[i - 1]`")
+    sub = inc.comparators[0]
+    ok = isinstance(sub.value, ast.Name) and sub.value.id == "score_vector" and isinstance(sub.slice, ast.BinOp) \
+        and isinstance(sub.slice.op, ast.Sub) and isinstance(sub.slice.left, ast.Name) and sub.slice.left.id == "i" \
+        and is_const(sub.slice.right, 1)
+    if not ok:
+        raise Untranslatable("the increasing test does not compare with score_vector[i - 1]: " + src(inc))
+    env = {"score": "score", "subscript": lambda n: "prev"}
+    return f"""/-- `validate_score_vector`: rejected when some `{src(neg)}` -/
+def negEntry (score : Rat) : Bool := {trc(neg, env)}
+
+/-- … or some entry after the first has `{src(inc)}` (prev = the entry before it) -/
+def increasing (prev score : Rat) : Bool := {trc(inc, env)}
+"""
+
+
+def g_veto():
+    f = find_func(parse("elections/election_types/ranking/plurality_veto.py"), "PluralityVeto", "_run_step")
+    strike = one(compares(f, lambda n: isinstance(n.left, ast.Subscript) and isinstance(n.left.value, ast.Name)
+                          and n.left.value.id == "new_scores" and is_const(n.comparators[0], 0)), "comparison `new_scores[...] <op> 0`")
+    zero = one(compares(f, lambda n: isinstance(n.left, ast.Name) and n.left.id == "score" and is_const(n.comparators[0], 0)),
+               "comparison `score <op> 0`")
+    fin = one(compares(f, lambda n: isinstance(n.left, ast.Name) and n.left.id == "remaining_count"), "comparison of remaining_count")
+    dec = one([n for n in ast.walk(f) if isinstance(n, ast.AugAssign) and isinstance(n.target, ast.Subscript)
+               and isinstance(n.target.value, ast.Name) and n.target.value.id == "new_scores"], "augmented assignment to new_scores[...]")
+    op = {ast.Sub: "-", ast.Add: "+"}.get(type(dec.op))
+    if op is None:
+        raise Untranslatable("new_scores[...] is updated by " + ast.dump(dec.op))
+    env = {"score": "score", "subscript": lambda n: "score", "remaining_count": "(standing : Rat)", "self.m": "(m : Rat)"}
+    return f"""/-- `PluralityVeto._run_step`: the voters stop when `{src(strike)}` -/
+def vetoStruck (score : Rat) : Bool := {trc(strike, env)}
+
+/-- round 1 drops every candidate with `{src(zero)}` -/
+def zeroTally (score : Rat) : Bool := {trc(zero, env)}
+
+/-- one veto: `{src(dec)}` -/
+def vetoDecrement (score : Rat) : Rat := (score {op} {tr(dec.value, env)})
+
+/-- the last round: `{src(fin)}` -/
+def vetoFinal (standing m : Nat) : Bool := {trc(fin, env)}
+"""
+
+
+def g_fill():
+    f = find_func(parse("graphs/pairwise_comparison_graph.py"), "PairwiseComparisonGraph", "ballot_fill")
+    ff = one([n.value for n in ast.walk(f) if isinstance(n, ast.Assign) and len(n.targets) == 1
+              and isinstance(n.targets[0], ast.Name) and n.targets[0].id == "frac_freq"], "frac_freq assignment")
+    env = {"ballot.weight": "w", "len:missing_cands_perms": "(k : Rat)"}
+    return f"""/-- `ballot_fill`: every completion of a short ballot gets `frac_freq = {src(ff)}`
+(k = number of completions) -/
+def fillShare (w : Rat) (k : Nat) : Rat := {tr(ff, env)}
+"""
+
+
+def g_expand():
+    f = find_func(parse("utils.py"), None, "expand_tied_ballot")
+    kws = [kw.value for n in ast.walk(f) if isinstance(n, ast.Call) and isinstance(n.func, ast.Name) and n.func.id == "Ballot"
+           for kw in n.keywords if kw.arg == "weight" and not (isinstance(kw.value, ast.Attribute))]
+    w = one(kws, "computed weight= keyword of a Ballot(...) call")
+    env = {"ballot.weight": "w", "len:s": "(k : Rat)", "lenNat:s": "k"}
+    return f"""/-- Python's `math.factorial` -/
+def gfact : Nat → Nat
+  | 0 => 1
+  | n + 1 => (n + 1) * gfact n
+
+/-- `expand_tied_ballot`: every ordering of a tied group of k candidates gets `weight={src(w)}` -/
+def expandShare (w : Rat) (k : Nat) : Rat := {tr(w, env)}
+"""
+
+
+GROUPS = [("STV", g_stv), ("Dictator", g_dictator), ("MCMC", g_mcmc), ("Rating", g_rating), ("Vector", g_vector),
+          ("Veto", g_veto), ("Fill", g_fill), ("Expand", g_expand)]
+
+
+def main():
+    os.makedirs(OUTDIR, exist_ok=True)
+    rc = 0
+    for name, fn in GROUPS:
+        out = os.path.join(OUTDIR, name + ".lean")
+        try:
+            body = fn()
+        except (Untranslatable, KeyError, OSError, SyntaxError, IndexError, AttributeError) as e:
+            print(f"kernel group {name} fell back to the committed file: {type(e).__name__}: {e}")
+            rc = 3
+            continue
+        text = f"""/-
   GENERATED by tools/extract_kernels.py from /repo's current source — do not edit.
   int(x) on a non-negative rational is the floor (trusted: CPython's int() truncation).
 -/
 namespace VK.Generated
 
-/-- Python's `min` on two numbers -/
-def rmin2 (a b : Rat) : Rat := if a ≤ b then a else b
-
-/-- `STV.get_threshold`, quota == "droop": `int({ast.unparse(rets['droop'])})` -/
-def thresholdDroop (m : Nat) (N : Rat) : Int := ({droop}).floor
-
-/-- `STV.get_threshold`, quota == "hare": `int({ast.unparse(rets['hare'])})` -/
-def thresholdHare (m : Nat) (N : Rat) : Int := ({hare}).floor
-
-/-- `fractional_transfer`: `transfer_value = {ast.unparse(tv)}` -/
-def transferValue (fpv : Rat) (threshold : Int) : Rat := {tvs}
-
-/-- `BoostedRandomDictator._run_step`: the squares branch is taken when `u <= {ast.unparse(br)}` -/
-def boostedBranch (n : Nat) : Rat := {brs}
-
-/-- `slate_BradleyTerry._sample_ballot_types_MCMC`, swap that moves the bloc's own slate down:
-`{ast.unparse(acc[0])}` -/
-def slateAcceptDown (c : Rat) : Rat := {sdown}
-
-/-- the swap that moves the bloc's own slate up: `{ast.unparse(acc[1])}` -/
-def slateAcceptUp (c : Rat) : Rat := {sup}
-
-/-- `name_BradleyTerry._BT_mcmc`: `{' '.join(ast.unparse(bacc[0]).split())}` with x1 = support of the
-candidate at j1 (currently above), x2 = support of the candidate at j2 -/
-def btAccept (x1 x2 : Rat) : Rat := {bts}
-
+{body}
 end VK.Generated
 """
-    old = open(OUT).read() if os.path.exists(OUT) else None
-    if old != text:
-        with open(OUT, "w") as f:
-            f.write(text)
-        print("Generated.lean rewritten from the current source")
-    return 0
+        old = open(out).read() if os.path.exists(out) else None
+        if old != text:
+            with open(out, "w") as f:
+                f.write(text)
+            print(f"Generated/{name}.lean rewritten from the current source")
+    return rc
 
 
 if __name__ == "__main__":
